@@ -82,13 +82,18 @@ PartialLayers(lev, b, t) == {k \in 1..NLay(lev) : ~WhollyInside(lev, k, WinLo(le
 OverlapPos(lev, k, b, t) == CMax(0, CMin(WinHi(lev, b, t), lev[k]) - CMax(WinLo(lev, b, t), lev[k + 1]))
 \* on logged observations: m = round(fraction * S); the positions are roundings of the real log-pressures, each off by
 \* at most pu/2 units (pu = 0: exact positions), so that the overlap ov and the width w are off by at most pu each:
-\*     | m * w - ov * S |  <=  2 * pu * S  +  w          (products beyond 32 bits: Dec)
+\*     | m * w - ov * S |  <=  2 * pu * S  +  w ,   i.e.   | m - ov * S / w |  <=  2 * pu * S / w  +  1
+\* ov * S does not fit 32 bits: the quotient is taken by long division in base 100 (S a power of 100; ov <= w < 2^24)
+RECURSIVE ScaledQuot(_, _, _)
+ScaledQuot(ov, w, S) == IF S <= 1 THEN <<ov \div w, ov % w>>
+                        ELSE LET p == ScaledQuot(ov, w, S \div 100)
+                                 r == p[2] * 100
+                             IN  <<(p[1] * 100) + (r \div w), r % w>>
 FlatRuleOk(lev, k, b, t, m, S, pu) ==
     LET w   == lev[k] - lev[k + 1]
-        mw  == DMul(DInt(m), DInt(w))
-        os  == DMul(DInt(OverlapPos(lev, k, b, t)), DInt(S))
-        tol == DAdd(DMul(DInt(2 * pu), DInt(S)), DInt(w))
-    IN  m >= 0 /\ DLe(mw, DAdd(os, tol)) /\ DLe(os, DAdd(mw, tol))
+        q   == ScaledQuot(OverlapPos(lev, k, b, t), w, S)[1]          \* floor(ov * S / w)
+        tol == ((2 * pu * S) \div w) + 3
+    IN  m >= q - tol /\ m <= q + tol
 \* (a declared bound that coincides with a layer pressure is a measure-zero case: selected or not, both readings pass)
 LeeRuleOk(lev, cen2, k, b, t, m, S) ==
     LET bb == IF b.set THEN 2 * b.x ELSE cen2[1]
